@@ -249,6 +249,9 @@ func stepGauge(d *hdrv, r *Rng, npools int) int {
 		voters++
 	}
 	d.block(6 * time.Second)
+	// a withdrawn vote: MsgVoteGauge with an empty weight list replaces the vote by an EMPTY one, which is still state
+	// (a stored delegator vote, even empty, deducts the delegator's shares from its validator in the tally)
+	d.tx(7, &litypes.MsgVoteGauge{Sender: d.addr(7), PoolWeights: []litypes.PoolWeight{}})
 	for i := 0; i < 7; i++ { // epoch length is 5 blocks: at least one full tally + one allocation block
 		d.block(6 * time.Second)
 	}
